@@ -14,7 +14,7 @@ CFG = {
                   "cap+1 other worker steps are possible (Go's select picks ready clauses at random, so termination is "
                   "with probability 1, not under every schedule).",
     "lean_props": ["BtcwVerif.Props.C18", "BtcwVerif.Props.C18Loops", "BtcwVerif.Props.C18Start"],
-    "engines": ["queue", "btcdnotif"],
+    "engines": ["queue", "btcdnotif", "bitcoindnotif"],
     "extractors": [{"name": "queue", "out": "QueueGen.lean"}, {"name": "notifloop", "out": "NotifLoopGen.lean"},
                    {"name": "queuestart", "out": "QueueStartGen.lean"}],
     "trusted_base": COMMON_TB + [
